@@ -17,9 +17,10 @@ use std::collections::{BTreeMap, HashSet};
 use std::io::{BufRead, BufReader, Write};
 use std::process::{Command, Stdio};
 
-const VERIF_DIR: &str = "/verif";
 
 fn make_env() -> Result<Env, String> {
+    #[allow(non_snake_case)]
+    let VERIF_DIR = simcore::verif_dir();
     let pty = pty::Pty::install()?;
     let workdir = format!("{VERIF_DIR}/replays/tuisim-work-{}", std::process::id());
     std::fs::create_dir_all(&workdir).map_err(|e| e.to_string())?;
@@ -98,6 +99,8 @@ fn violation_sig(env: &Env, prop: &str, tape: &[u32], want: &str) -> Option<Stri
 }
 
 fn run_check(prop: &str, tier: &str, batch: u64) -> i32 {
+    #[allow(non_snake_case)]
+    let VERIF_DIR = simcore::verif_dir();
     let started = std::time::Instant::now();
     let findings = match Findings::load(&format!("{VERIF_DIR}/known-findings.jsonl")) {
         Ok(f) => f,
